@@ -15,6 +15,10 @@ SQRTD = z3.Function("SQRTD", z3.Float64(), z3.Float64())
 # equivalence over the whole 64-bit domain is out of reach for these (two unrolled 34-iteration loops; FP + uninterpreted
 # sqrt + count-leading-zeros): full-width capped hunt, plus piecewise / per-class proofs where a finite domain is stated
 HARD = {"sqrt_abacus", "hypot", "atan_index_aprox", "atan_aprox"}
+# clang-14 -std=c++2b folds `if (std::is_constant_evaluated())` to true at run time (libstdc++ implements it with `if consteval`
+# there), so the run-time sqrt of that configuration is sqrt_abacus while c++17 / c++20 use std::sqrt: these wrappers are not
+# compared bit for bit between c++17 and c++2b (the two algorithms agree within 1 ulp by their C13 contract)
+SQRT_2B = {"sqrt", "hypot", "asin", "acos"}
 
 
 def ctx_units():
@@ -61,6 +65,9 @@ def run(R):
     R.assume_note("optimised IR is executed under machine semantics (nsw/nuw/exact flags ignored, no poison); equality is "
                   "required for every input of the domain, on which C07 shows the source to be UB-free")
     R.assume_note("libm sqrt is the same uninterpreted function in both programs")
+    R.outside.append("sqrt, hypot, asin, acos under clang-14 -std=c++2b: that compiler folds std::is_constant_evaluated() to true "
+                     "at run time (libstdc++'s `if consteval` implementation), i.e. selects sqrt_abacus where c++17/c++20 select "
+                     "std::sqrt; bit equality between c++17 and c++2b is therefore not claimed for these four (1 ulp by contract)")
     quick = R.quick()
     series = {"sin", "cos", "tan", "asin", "acos", "atan", "atan2"}
     core = C07.units()
@@ -86,7 +93,8 @@ def run(R):
             ins = [BV(n, B.WIDTH[k]) for n, k in u.params]
             D = dom_of(u, ins)
             unroll = C07.UNROLL.get(u.name, 1)
-            variants = [("S", None, lv, None) for lv in levels] + [("S", None, "S", sd) for sd in stds]
+            variants = [("S", None, lv, None) for lv in levels] + [("S", None, "S", sd) for sd in stds
+                                                                     if not (sd == "c++2b" and u.name in SQRT_2B)]
             for (ir1, std1, ir2, std2) in variants:
                 name = "%s/%s-vs-%s" % (u.name, "S" if std2 is None else "c++17", ir2 if std2 is None else std2)
                 progs += 1
@@ -106,7 +114,7 @@ def run(R):
                     hard = u.name in series or u.name in HARD or u.name.startswith(("sin_", "cos_", "tan_"))
                     kind = "hunt" if hard and not ab else "verify"
                     ob_ = Ob(name, kind, ins, [c1, c2], pre, c1.out == c2.out, abstract=ab, comm_lemmas=False,
-                             portfolio=("z3", "cvc5"), timeout=60 if quick else 300,
+                             portfolio=("z3", "cvc5") if ab else ("z3", "cvc5", "cvc5int"), timeout=60 if quick else 300,
                              note="same result bits for every argument: %s" % name)
                     ob_.cross_config = True
                     ob_.natives = [("g++", "-O0"), ("g++", "-O2"), ("g++", "-O3"), ("clang++-14", "-O0"), ("clang++-14", "-O1"),
@@ -215,6 +223,8 @@ def piecewise_tv(R, levels):
     bits = 11
     total = 0
     for fn, (lo, hi) in doms.items():
+        # tan: 2^10-value pieces (measured: a 2^11 piece costs 200-570 s, its two halves 40 s each)
+        bits = 10 if fn == "tan" else 11
         ps = O.pieces(lo, hi, 1 << bits)
         if R.quick():
             R.rng.shuffle(ps)
@@ -223,14 +233,26 @@ def piecewise_tv(R, levels):
             # every piece at -O2; at the other levels every 8th piece (thorough) - the optimiser pipelines of -O1/-O3 differ
             # from -O2 only in inlining/unrolling heuristics for this code
             pslv = ps if (lv == "O2" or R.quick()) else ps[::8]
-            for (l, hpc) in pslv:
-                x, ins, dom = O.piece_var(l, hpc, bits)
+            def piece_ob(l, hpc, b, fn=fn, lv=lv, depth=0):
+                x, ins, dom = O.piece_var(l, hpc, b)
                 st = {"sqrt": lambda ctx, args: SQRTD(args[0])}
                 c1 = R.call(h, fn, [x], opts=E.Opts(stubs=st, track_ub=False), ir="S")
                 c2 = R.call(h, fn, [x], opts=E.Opts(stubs=st, machine=True, track_ub=False), ir=lv)
-                R.verify("%s/S-vs-%s/[%d,%d]" % (fn, lv, l, hpc), ins, [c1, c2], dom, c1.out == c2.out, portfolio=("z3",),
-                         timeout=300 if R.quick() else 900,
-                         note="source-faithful IR and clang %s output agree on every raw argument of the piece" % lv)
+                ob = Ob("%s/S-vs-%s/[%d,%d]" % (fn, lv, l, hpc), "verify", ins, [c1, c2], dom, c1.out == c2.out, portfolio=("z3",),
+                        timeout=300 if R.quick() else 600,
+                        note="source-faithful IR and clang %s output agree on every raw argument of the piece" % lv)
+                if depth < 3 and hpc > l:
+                    # a piece that gets no verdict in time is split into its aligned halves (up to three times)
+                    def split(l=l, hpc=hpc, b=b, depth=depth):
+                        mid = ((l >> (b - 1)) + 1) << (b - 1)
+                        parts = [(l, min(mid - 1, hpc))] + ([(mid, hpc)] if mid <= hpc else [])
+                        if len(parts) == 1:
+                            return [piece_ob(parts[0][0], parts[0][1], b - 1, depth=depth + 1)]
+                        return [piece_ob(pl, ph, b - 1, depth=depth + 1) for pl, ph in parts]
+                    ob.fallback = split
+                return ob
+            for (l, hpc) in pslv:
+                R._add(piece_ob(l, hpc, bits))
                 total += 1
     R.outside.append("asin beyond 0.6 (the branch through sqrt) and atan beyond 39/16 are compared by the full-width hunts only")
     R.bounds.append("piecewise equivalence of sin, cos, tan, asin (series branch), atan (direct segments) between the source-faithful IR and the optimised IR on "
